@@ -54,6 +54,10 @@ def _vals(ch: core.Chooser, shape: tuple, kind: str, nonzero: bool = False) -> d
     size = int(numpy.prod(shape, dtype=int))
     if kind == "int":
         pool = [-3, -2, -1, 0, 0, 1, 1, 2, 2, 3] if not nonzero else [-3, -2, -1, 1, 1, 2, 2, 3]
+    elif kind == "largeint":  # does not fit int8/int16: a result squeezed into a narrower dtype shows
+        pool = [1000, -1000, 300, 129, 70000, 3, -7, 100000] if not nonzero else [1000, -300, 129, 70000, 3, -7]
+    elif kind == "largefloat":  # not representable in float32
+        pool = [16777217.0, 1e10 + 1, -33554433.0, 0.1, 3.0, 1.0 / 3] if not nonzero else [16777217.0, 1e10 + 1, 3.0, 1.0 / 3]
     elif kind == "bigint":  # differences of these wrap around in int64
         pool = [2**62, -(2**62), 2**63 - 1, -(2**63), -1, 0, 1, -(2**63) + 1]
     elif kind in ("uint8", "uint64"):  # differences of unsigned numbers wrap
@@ -68,12 +72,17 @@ def _vals(ch: core.Chooser, shape: tuple, kind: str, nonzero: bool = False) -> d
     if ch.chance(0.4):
         pool = ch.sample(pool, min(len(pool), 3))
     data = [ch.choice(pool) for _ in range(size)]
-    dtype = {"int": "int64", "float": "float64", "bool": "bool", "bigint": "int64", "uint8": "uint8", "uint64": "uint64", "inf": "float64"}[kind]
+    dtype = {"int": "int64", "float": "float64", "bool": "bool", "bigint": "int64", "uint8": "uint8", "uint64": "uint64", "inf": "float64", "largeint": "int64", "largefloat": "float64"}[kind]
     return {"const": model.lit_array(numpy.array(data, dtype=dtype).reshape(shape), dtype), "dress": ch.below(3)}
 
 
+_FORCED_KIND: List[Optional[str]] = [None]
+
+
 def _kind(ch: core.Chooser) -> str:
-    return ch.weighted([(3, "int"), (2, "float")])
+    if _FORCED_KIND[0] is not None:
+        return _FORCED_KIND[0]
+    return ch.weighted([(6, "int"), (4, "float"), (1, "largeint"), (1, "largefloat")])
 
 
 def _axis_kwargs(ch: core.Chooser, shape: tuple, keepdims: bool = False, tuples: bool = True, none_ok: bool = True) -> dict:
@@ -315,7 +324,8 @@ TYPED = {"equal", "not_equal", "less", "less_equal", "greater", "greater_equal",
 def generate(rs: int, tier: str, index: int) -> dict:
     ch = core.Chooser(rs, "plan")
     names = sorted(TABLE)
-    if ch.chance(0.08):
+    pre_systematic = index < 4 * len(names)
+    if not pre_systematic and ch.chance(0.08):
         # numeric division by a non-constant polynomial must raise FeatureNotSupported
         fn = ch.choice(["floor_divide", "true_divide", "divide", "remainder", "divmod"])
         shape = ch.choice([(), (2,), (2, 2)])
@@ -326,14 +336,14 @@ def generate(rs: int, tier: str, index: int) -> dict:
         nonconst = [i for i, e in enumerate(divisor["exponents"]) if sum(e)]
         divisor["coefficients"][nonconst[0]] = [1.5] * size
         step = {"id": 0, "k": "nonconst_div", "fn": fn, "a": _vals(ch.sub("a"), shape, "float"), "d": divisor}
-    elif ch.chance(0.08):
+    elif not pre_systematic and ch.chance(0.08):
         # history on one object: query, update the polynomial in place (copyto destination), query again
         fn = ch.choice(["argmin", "argmax", "amax", "amin", "max", "min", "sum", "mean", "cumsum", "any"])
         shape = ch.choice([(3,), (5,), (2, 3), (2, 2, 2)])
         kind = _kind(ch)
         step = {"id": 0, "k": "requery", "fn": fn, "first": dict(_vals(ch.sub("a"), shape, kind), dress=0), "second": _vals(ch.sub("b"), shape, kind),
                 "kwargs": _axis_kwargs(ch.sub("k"), shape, tuples=False) if fn != "cumsum" else {}, "via": ch.choice(["numpoly", "numpy"])}
-    elif ch.chance(0.08):
+    elif not pre_systematic and ch.chance(0.08):
         # the polynomial is its own output target: fn(p, c, out=p) and the augmented operators
         # (only the forms numpoly's out= contract supports: plain constant operands whose keys the output already has,
         #  called through numpoly; augmented operators and true_divide/remainder with out= are a separate, patchy API)
@@ -346,9 +356,35 @@ def generate(rs: int, tier: str, index: int) -> dict:
         fn = names[index % len(names)] if ch.chance(0.5) else ch.choice(names)
         if ch.chance(0.25):
             fn = ch.choice(sorted(ORDERING))
-        spec = TABLE[fn](ch.sub("g"), fn)
+        systematic = index < 4 * len(names)  # every function x {int, float, large int after a narrow-dtype call, large float after one}
+        if systematic:
+            fn = names[index % len(names)]
+            _FORCED_KIND[0] = ["int", "float", "largeint", "largefloat"][index // len(names)]
+        try:
+            spec = TABLE[fn](ch.sub("g"), fn)
+        finally:
+            _FORCED_KIND[0] = None
         # numpy.full(shape, poly) never dispatches (no array argument): numpoly spelling only
-        step = {"id": 0, "k": "mirror", "fn": fn, "args": spec["args"], "kwargs": spec["kwargs"],
+        if ch.chance(0.2) and not any(isinstance(a, dict) and "pyscalar" in a for a in spec["args"]):
+            # narrower coefficient dtypes (the values are small and exactly representable); not together with Python
+            # scalars: numpy treats those as weakly typed (uint8 - 3 wraps), numpoly converts them to int64 polynomials
+            # first - a documented difference in promotion, outside "numeric arrays"
+            narrow = {"int64": ch.choice(["int8", "int16", "int32", "uint8"]), "float64": ch.choice(["float32", "float16"])}
+            def cast(a: Any) -> Any:
+                if isinstance(a, dict) and ("const" in a or "plain" in a):
+                    key = "const" if "const" in a else "plain"
+                    lit = a[key]
+                    new = narrow.get(lit["dtype"])
+                    if new and (not new.startswith("u") or all(v >= 0 for v in lit["flat"])) and all(abs(v) < 100 for v in lit["flat"] if isinstance(v, (int, float)) and v == v and abs(v) != float("inf")):
+                        return dict(a, **{key: dict(lit, dtype=new)})
+                if isinstance(a, dict) and "seq" in a:
+                    return dict(a, seq=[cast(x) for x in a["seq"]])
+                return a
+            spec = dict(spec, args=[cast(a) for a in spec["args"]])
+        primer_cast = ch.choice(["int8", "float32"]) if ch.chance(0.2) else None  # the same call on narrower operands, earlier in the process
+        if systematic and index >= 2 * len(names):
+            primer_cast = "int8"
+        step = {"id": 0, "k": "mirror", "fn": fn, "args": spec["args"], "kwargs": spec["kwargs"], "primer_cast": primer_cast,
                 "spelling": "numpoly" if fn == "full" else ch.choice(["numpoly", "numpoly", "numpy"])}
     allenvs = [(p, f) for p in POLICIES for f in FILLS]
     envs = [("stable", "zero")] + ch.sample([e for e in allenvs if e != ("stable", "zero")], 7 if tier == "thorough" else 2)
@@ -424,7 +460,10 @@ def _compare(a: Any, b: Any, typed: bool, atol: float = 0.0) -> Optional[str]:
     if x.dtype.kind in "US" or y.dtype.kind in "US":
         return None if numpy.array_equal(x, y) else f"{y} vs {x}"
     with numpy.errstate(all="ignore"):
-        if not numpy.allclose(x, y, rtol=1e-12 if not atol else 1e-9, atol=atol, equal_nan=True):
+        rtol = 1e-12 if not atol else 1e-9
+        if x.dtype in (numpy.float32, numpy.float16, numpy.complex64) or y.dtype in (numpy.float32, numpy.float16, numpy.complex64):
+            rtol = 2e-3 if numpy.float16 in (x.dtype, y.dtype) else 1e-5
+        if not numpy.allclose(x, y, rtol=rtol, atol=atol, equal_nan=True):
             return f"values {y.tolist()}, numpy gives {x.tolist()}"
     return None
 
@@ -503,6 +542,20 @@ class Runner:
                             env.remember(a)
                     func = getattr(numpoly, fn, None) if step.get("spelling") == "numpoly" else None
                     func = func or np_func
+                    if step.get("primer_cast"):
+                        try:
+                            narrow_args = []
+                            for a, x in zip(step["args"], p_args):
+                                if isinstance(a, dict) and "const" in a and a["const"]["dtype"] in ("int64", "float64"):
+                                    target = step["primer_cast"] if a["const"]["dtype"] == "int64" else "float32"
+                                    narrow_args.append(_dress(numpy.clip(model.build_array(a["const"]), -100, 100).astype(target), 0))
+                                else:
+                                    narrow_args.append(x)
+                            with numpy.errstate(all="ignore"):
+                                func(*narrow_args, **kwargs)
+                            self.bump("probe:primer_same_call_narrower_dtype")
+                        except Exception:  # noqa: BLE001
+                            pass
                     if any(isinstance(a, dict) and a.get("primer") is not None for a in step["args"]):
                         try:
                             with numpy.errstate(all="ignore"):
